@@ -114,6 +114,69 @@ PROPS["C20"] = {
     "oracle_tags": ["C20"],
     "explanation": "theorems: on the specification every mode returns the RoundDown or RoundUp result, floor/ceiling are those by sign, modes coincide iff exact, down/up adjacent, mirror law, monotonicity; on the model Add/Mul commute and Sub = Add of the negation. C01 ties the operations to the specification. search: the relations are evaluated directly on implementation outputs of the same call under the eight modes and under sign/scale/order transformations (scaling law: checked, not proved)",
 }
+COMPOSITE_NOTE = "Exp/Ln/Log10/Pow: only the special-value prologues are modelled (the series are steered by float64 estimates); their numeric results are judged by oracles"
+
+PROPS.update({
+    "C03": {
+        "level": "proof",
+        "lean_modules": ["ApdVerif.Props.C03", "ApdVerif.Props.GenTieCond"],
+        "theorem_prefixes": ["C03_", "GenTie_"],
+        "streams": [{"stream": "traps", "n": {"quick": 30000, "thorough": 500000}},
+                    {"stream": "errdec", "n": {"quick": 15000, "thorough": 200000}}],
+        "projections": ["traps", "errdec"],
+        "oracle_tags": ["C03"],
+        "trusted_extra": [COMPOSITE_NOTE],
+    },
+    "C04": {
+        "level": "other",
+        "lean_modules": ["ApdVerif.Props.C04", "ApdVerif.Props.C11", "ApdVerif.Props.C14"],
+        "theorem_prefixes": ["C04_", "C11_sqrtLoop", "C14_parse_accepts_iff", "C14_setString_limits"],
+        "streams": [{"stream": "total", "n": {"quick": 20000, "thorough": 300000}},
+                    {"stream": "strings", "n": {"quick": 20000, "thorough": 400000}},
+                    {"stream": "digits", "n": {"quick": 3000, "thorough": 50000}},
+                    {"stream": "traps", "n": {"quick": 8000, "thorough": 150000}},
+                    {"stream": "specials", "n": {"quick": 1, "thorough": 60000}},
+                    {"stream": "bigint", "n": {"quick": 5000, "thorough": 100000}}],
+        "projections": [],
+        "oracle_tags": ["C04"],
+        "explanation": "partial: Lean proves that the modelled entry points are total functions whose loops run on proved-sufficient fuel (Sqrt precision doubling, integer roots, NumDigits, Reduce) and that a successfully parsed decimal is well-formed; the runtime part (no panic / no hang of the compiled code, every exported entry point) is explored under recover + watchdog on generated well-formed inputs and arbitrary byte strings",
+    },
+    "C11": {
+        "level": "other",
+        "lean_modules": ["ApdVerif.Props.C11"],
+        "streams": [{"stream": "roots", "n": {"quick": 20000, "thorough": 400000}}],
+        "projections": ["value", "repr", "flags", "err"],
+        "oracle_tags": ["C11"],
+        "explanation": "partial: proved for all inputs - the integer-root oracles (isqrt, icbrt), that specSqrt is the half-even nearest multiple of the quantum stated on squares, the Cbrt ulp test, perfect-cube detection, termination of Sqrt's precision loop, special operands. NOT proved: accuracy of the Newton iterates (false for Sqrt on this tree: finding F2). The executable models of Sqrt and Cbrt (no floats involved) are correspondence-checked and every generated case is judged by the proved oracles; generators aim at roots next to rounding boundaries",
+    },
+    "C13": {
+        "level": "proof",
+        "lean_modules": ["ApdVerif.Props.C13", "ApdVerif.Props.C14"],
+        "theorem_prefixes": ["C13_"],
+        "streams": [{"stream": "text", "n": {"quick": 20000, "thorough": 400000}}],
+        "projections": ["text", "format", "parse"],
+        "oracle_tags": ["C13"],
+        "trusted_extra": ["SetFloat64/Float64 rely on strconv's shortest formatting and correctly rounded parsing (contract assumed); the stream checks the bit-exact round trip and the shortest-coefficient claim on generated bit patterns"],
+    },
+    "C14": {
+        "level": "proof",
+        "lean_modules": ["ApdVerif.Props.C14"],
+        "theorem_prefixes": ["C14_"],
+        "streams": [{"stream": "strings", "n": {"quick": 30000, "thorough": 600000}},
+                    {"stream": "text", "n": {"quick": 10000, "thorough": 200000}}],
+        "projections": ["text", "format", "parse"],
+        "oracle_tags": ["C14"],
+    },
+    "C16": {
+        "level": "proof",
+        "lean_modules": ["ApdVerif.Props.C16", "ApdVerif.Props.GenTieInline"],
+        "theorem_prefixes": ["C16_", "GenTie_"],
+        "streams": [{"stream": "bigint", "n": {"quick": 30000, "thorough": 500000}}],
+        "projections": ["bigint"],
+        "oracle_tags": ["C16"],
+        "trusted_extra": ["math/big is the reference semantics by definition of the property; the ~40 wrapper methods without a fast path are updateInner(big.op(inner ...)) - covered by C16_wrapper in the model and compared with math/big directly in the bigint stream; receiver/argument aliasing of BigInt is implemented by math/big's own overlap detection over the shared inline array and is carried by the stream only"],
+    },
+})
 
 _known = None
 
